@@ -324,6 +324,9 @@ class DiscriminatedUnionUnpackerBuilder(AbstractUnpackerBuilder):
     def _get_variants_map(self, spec: ValueSpec) -> str:
         variants_attr = self._get_variants_attr(spec)
         if spec.builder.is_nailed:
+            # the holder class is referred to by its qualified name: its
+            # module must be importable from the generated code
+            spec.builder.add_type_modules(spec.builder.cls)
             typ_name = spec.builder.get_type_name_identifier(spec.builder.cls)
             return f"{typ_name}.{variants_attr}"
         else:
